@@ -327,6 +327,15 @@ def rule_aggregation(ctx):
                    f"`{norm(st, 70)}` stores per-element values at a non-unique bus index: elements sharing a bus overwrite each other", fi.loc(st))
     rule_shortcut_guard(ctx)
     rule_zip_sibling(ctx)
+    # the balance at a reference bus closes only if the slack power of the bus is shared completely among its reference rows
+    R4 = "SLACK-SPLIT"
+    ctx.rule(R4, "the slack power of a bus is shared among the reference generators of that bus: the divisor is the number of "
+                 "exactly the rows the shares are assigned to (AC: pfsoln._split_p_for_gens_at_same_bus, DC: _run_dc_pf); otherwise "
+                 "the element results at the reference bus do not add up to the bus injection")
+    n = _lints.split_divisor(ctx, R4, [ctx.repo.func("pandapower.pypower.pfsoln:_split_p_for_gens_at_same_bus"),
+                                       ctx.repo.func("pandapower.pf.run_dc_pf:_run_dc_pf")])
+    if n < 2:
+        ctx.fail("SLACK-SPLIT: the slack sharing statements were not found")
 
 
 def rule_zip_sibling(ctx):
@@ -384,6 +393,10 @@ def variants(repo):
     rb = "pandapower/results_bus.py"
     ms = "pandapower/pypower/makeSbus.py"
     return [
+        Variant("ac slack split by all gens at the bus", "pandapower/pypower/pfsoln.py",
+                replace_once("gen[ext_grids, PG] = p_ext_grids / len(ext_grids)", "gen[ext_grids, PG] = p_ext_grids / len(gens_at_bus)"), "SLACK-SPLIT"),
+        Variant("dc slack split counts all gens", "pandapower/pf/run_dc_pf.py",
+                replace_once("ext_grids_bus=bincount(refgenbus)", "ext_grids_bus=bincount(gen[:, GEN_BUS].astype(np.int64))"), "SLACK-SPLIT"),
         Variant("ext grid admittance with repeated bus index", bb, in_function("_add_ext_grid_sc_impedance",
                 lambda s: s.replace('ppc["bus"][buses, GS] += gs * ppc[\'baseMVA\']', 'ppc["bus"][eg_buses_ppc, GS] += y_grid.real * ppc[\'baseMVA\']', 1)), "ACCUMULATE"),
         Variant("demand stored per element", bb, in_function("_calc_pq_elements_and_add_on_ppc",
